@@ -134,6 +134,13 @@ def run(ctx):
             ctx.ok(R_entry, e)
         else:
             ctx.note_unarmed(R_entry, e, "entry point not found under this path")
+    # "every public open/parse/list/read entry point": besides the named ones, every `pub fn` of the ten crates whose name says it
+    # consumes a file (parse*/open*/read*/load*/list*/from_bytes/from_reader/decompress*) is a root of its own
+    R_pub = ctx.rule("C05.public-readers-are-roots", "every pub fn named parse*/open*/read*/load*/list*/from_bytes/from_reader/decompress* is a root of the analysed call graph", floor=300)
+    for pth, f_ in cg.fns.items():
+        if f_.d.get("vis") == "pub" and re.match(r"(parse|open|read|load|list|from_bytes|from_reader|decompress)", pth.split("::")[-1]) and "::tests::" not in pth and pth not in roots:
+            roots.append(pth)
+            ctx.ok(R_pub, pth) if len(ctx.samples) < 320 else ctx.rules[R_pub].__setitem__("obligations", ctx.rules[R_pub]["obligations"] + 1) or ctx.rules[R_pub].__setitem__("discharged", ctx.rules[R_pub]["discharged"] + 1)
     reach = cg.local_reachable(roots)
     world = taint.World(crates)
     taint.solve(world)
